@@ -187,7 +187,9 @@ def run(ctx):
         case = {'work': work, 'world': w, 'grad_workers': k, 'colocate': col, 'stream': 'KAISAAssignment'}
         try:
             a = KAISAAssignment(work, local_rank=rng.randrange(w), world_size=w, grad_worker_fraction=k / w,
-                                group_func=lambda r: list(r), colocate_factors=col)
+                                group_func=lambda r: list(r),
+                                # (the flag is tested by truthiness throughout the library: 1 / 0 from a parsed configuration)
+                                colocate_factors=(int(col) if rng.random() < 0.3 else col))
             # (which of several equally loaded groups gets a layer depends on the order in which the class lists its
             # groups — a CPython set order, modelled in C06 — so only order-independent facts are checked here)
             got = {l: {f: a.inv_worker(l, f) for f in a.get_factors(l)} for l in a.get_layers()}
